@@ -3,6 +3,7 @@ CONSTANTS
   NSlots = 2
   MaxLen = 4
   WithMove = FALSE
+  CloneDeep = FALSE
 INIT Init
 NEXT Next
 INVARIANT Emit
